@@ -296,9 +296,7 @@ theorem quiet_pushEvtStore (m : ModId) (e : Evt) : Quiet (fun s => pushEvtStore 
       | some tb => simp only; split <;> rfl
     · simp only [h2]; exact ⟨_, Quiet.id, rfl⟩
   · simp only [h1, Bool.false_eq_true, if_false]
-    exact ⟨fun s0 => s0.updMod m (fun md => { md with batch := md.batch ++ [match e.src.bind (fun i => s.srcs[i]?) with
-              | some x => { e with userdata := x.userptr }
-              | none => e] }), quiet_updMod m _ (fun md => rfl), rfl⟩
+    exact ⟨fun s0 => s0.updMod m (fun md => { md with batch := md.batch ++ [stampEvt s e] }), quiet_updMod m _ (fun md => rfl), rfl⟩
 
 /-- `push_evt` -/
 theorem pushEvtP_triple {R : St → Prop} (hR : Stable R) (m : ModId) (e : Evt) :
